@@ -238,6 +238,7 @@ pub fn random_kind(rng: &mut Rng, kind: &'static str) -> KindInst {
         }
         "cache" | "cache2" => {
             let inner = *rng.pick(&["median", "mean", "kalman", "schmitt", "bounds", "ema", "convolve", "meanvar", "debounce"]);
+            let inner = if inner == "meanvar" && !cfg!(feature = "cache_any") { "mean" } else { inner };
             let i = random_kind(rng, inner);
             k.pivots = i.pivots.clone();
             k.width = i.width;
@@ -1040,6 +1041,36 @@ pub fn gen_reset(rng: &mut Rng, tier: &Tier) -> Vec<Case> {
             cases.push(c);
         }
     }
+    // composite filters keep a copy of a parameter inside each inner filter; the state is public, so a filter may be
+    // handed inner filters whose copy differs from its own configuration. A freshly constructed filter derives the
+    // inner copies from its configuration, so a reset one must as well.
+    for _ in 0..tier.n(20, 200) {
+        let w = unit_rat(rng);
+        let (fresh, inject) = if rng.chance(1, 2) {
+            let inner = |rng: &mut Rng| if rng.chance(1, 4) { w.clone() } else { unit_rat(rng) };
+            (
+                format!("emeanvar w={}", w),
+                format!("emeanvar w={} mw={} vw={} mean={} var={}", w, inner(rng), inner(rng), opt_rat(rng), opt_rat(rng)),
+            )
+        } else {
+            let (m, q) = (unit_rat(rng), unit_rat(rng));
+            (
+                format!("emedian pre={} mid={} post={}", w, m, q),
+                format!(
+                    "emedian pre={} mid={} post={} ipre={} ipost={} spre={} spost={} median={}",
+                    w, m, q, unit_rat(rng), unit_rat(rng), opt_rat(rng), opt_rat(rng), opt_rat(rng)
+                ),
+            )
+        };
+        let mut c = vec![format!("inject 1 {}", inject), "cfg 1".to_string(), "reset 1".to_string(), "cfg 1".to_string(), format!("new 2 {}", fresh)];
+        for _ in 0..rng.range(2, 6) {
+            let x = rat(rng);
+            c.push(format!("f 1 {}", x));
+            c.push(format!("f 2 {}", x));
+            c.push("same 1 2 C12.reset-eq-fresh".into());
+        }
+        cases.push(c);
+    }
     cases
 }
 
@@ -1147,6 +1178,28 @@ pub fn gen_cache(rng: &mut Rng, tier: &Tier) -> Vec<Case> {
             c.push(format!("f 2 {}", x));
             c.push("same 1 2 C20.cache-transparent".into());
             c.push("acc 1 cached".into());
+        }
+        cases.push(c);
+    }
+    // values that are equal under `==` and different bit for bit (IEEE zeros of either sign, told apart on the protocol
+    // by the sample type `fz`): "the most recent result" is the value the wrapped filter returned, not one equal to it
+    for _ in 0..tier.n(40, 400) {
+        let n = *rng.pick(&[1usize, 1, 2, 3]);
+        let mut c = vec![
+            format!("new 1 cache inner=median N={} T=fz", n),
+            format!("new 2 median N={} T=fz", n),
+            "acc 1 cached".to_string(),
+        ];
+        for i in 0..rng.range(2, 8) {
+            let x = *rng.pick(&["0", "-0", "0", "-0", "1", "-1"]);
+            c.push(format!("f 1 {}", x));
+            c.push(format!("f 2 {}", x));
+            c.push("same 1 2 C20.cache-transparent".into());
+            c.push("acc 1 cached".into());
+            if i == 2 && rng.chance(1, 2) {
+                c.push("clone 1 3".into());
+                c.push("acc 3 cached".into());
+            }
         }
         cases.push(c);
     }
